@@ -45,7 +45,7 @@ def sh(cmd, env=None, cwd=None, timeout=None):
     if env:
         e.update({k: str(v) for k, v in env.items()})
     try:
-        p = subprocess.run(cmd, cwd=cwd, env=e, stdout=subprocess.PIPE, stderr=subprocess.STDOUT,
+        p = subprocess.run([str(c) for c in cmd], cwd=cwd, env=e, stdout=subprocess.PIPE, stderr=subprocess.STDOUT,
                            timeout=timeout, text=True, errors="replace")
     except subprocess.TimeoutExpired as ex:
         raise ToolError("timeout: %s\n%s" % (" ".join(map(str, cmd)), (ex.stdout or "")[-2000:]))
